@@ -77,9 +77,15 @@ def gen(rng, ntempl=None, allow_anon=True, branchpoints=True, xta_common=False):
         n = rng.randrange(0, 3)
         for k in range(n):
             args = []
+            own = []
             for (pn, kind) in T['params']:
-                args.append(('const', marker()) if kind == 'val' else ('var', rng.choice(M.globals)))
-            M.processes.append(dict(name='P%d_%d' % (ti, k), templ=T['name'], args=args))
+                if kind == 'val' and not xta_common and rng.random() < 0.25:
+                    # a partial instantiation: the process keeps a parameter of its own and passes it on
+                    q = 'q%d_%d_%d' % (ti, k, len(own))
+                    own.append(q); args.append(('param', q))
+                else:
+                    args.append(('const', marker()) if kind == 'val' else ('var', rng.choice(M.globals)))
+            M.processes.append(dict(name='P%d_%d' % (ti, k), templ=T['name'], args=args, own=own))
         if not T['params'] and rng.random() < 0.4:
             M.system.append(T['name'])
     for p in M.processes:
@@ -117,7 +123,8 @@ def global_decl(M):
 def system_text(M):
     s = ''
     for p in M.processes:
-        s += '%s = %s(%s);\n' % (p['name'], p['templ'], ', '.join(str(a[1]) for a in p['args']))
+        own = p.get('own') or []
+        s += '%s%s = %s(%s);\n' % (p['name'], '(%s)' % ', '.join('const int[0,1] %s' % q for q in own) if own else '', p['templ'], ', '.join(str(a[1]) for a in p['args']))
     sep = ' < ' if M.priorities else ', '
     return s + 'system %s;\n' % sep.join(M.system) if M.system else s + 'system ;\n'
 
@@ -138,10 +145,14 @@ def render_xml(M, rng=None):
             out.append('<location id="%s" x="0" y="0">' % l['id'])
             if l['name']:
                 out.append('<name>%s</name>' % l['name'])
+            labs = []
             if l['inv'] is not None:
-                out.append('<label kind="invariant">%s</label>' % XESC(ltext(M, 'inv', l['inv'])))
+                labs.append('<label kind="invariant">%s</label>' % XESC(ltext(M, 'inv', l['inv'])))
             if l['rate'] is not None:
-                out.append('<label kind="exponentialrate">%s</label>' % XESC(ltext(M, 'rate', l['rate'])))
+                labs.append('<label kind="exponentialrate">%s</label>' % XESC(ltext(M, 'rate', l['rate'])))
+            if l.get('rate_first'):
+                labs.reverse()
+            out += labs
             if l['urgent']: out.append('<urgent/>')
             if l['committed']: out.append('<committed/>')
             out.append('</location>\n')
@@ -224,9 +235,10 @@ def expected(M):
     for s in M.system:
         if s in procs:
             p = procs[s]
-            D['processes'].append((s, p['templ'], tuple((pn, a[1]) for (pn, _), a in zip(tm[p['templ']]['params'], p['args']))))
+            own = p.get('own') or []
+            D['processes'].append((s, p['templ'], tuple((pn, a[1]) for (pn, _), a in zip(tm[p['templ']]['params'], p['args'])), len(own) + len(tm[p['templ']]['params']), len(own)))
         else:
-            D['processes'].append((s, s, ()))
+            D['processes'].append((s, s, (), len(tm[s]['params']), len(tm[s]['params'])))
     return D
 
 
@@ -283,7 +295,8 @@ def parse_dump(lines):
                     mm = markers(ex)
                     idm = re.search(r'\(IDENTIFIER (\w+)\)', ex)
                     mp.append((pn.strip(), mm[-1] if mm else (idm.group(1) if idm else ex)))
-            D['processes'].append((m.group(2), m.group(3), tuple(mp)))
+            nparams = len([x for x in m.group(4).split(';') if x.strip()])
+            D['processes'].append((m.group(2), m.group(3), tuple(mp), nparams, int(m.group(5))))
     return D
 
 
